@@ -83,7 +83,19 @@ func (w *World) adversarialKeys(call *Call) {
 		}
 		return ka.Index(0)
 	}
-	switch w.c.Choose(4, "adv-keys") {
+	switch w.c.Choose(5, "adv-keys") {
+	case 4: // one key of a colliding pair is requested; the other one is what a Byzantine server will mention
+		if isComplexKeyPtr(kt) {
+			if a, b, ok := findCollision(kt); ok {
+				k := reflect.New(kt.Elem())
+				k.Elem().Field(0).FieldByName("A").SetString(a)
+				if !keyIdentityIn(ka, k) {
+					addKey(k)
+				}
+				call.collidingStranger = b
+				w.c.Probe("stranger-in-a-requested-keys-hash-bucket-planned")
+			}
+		}
 	case 1: // a duplicate under key equality
 		fk := firstKey()
 		if !fk.IsValid() {
@@ -165,6 +177,12 @@ func (w *World) byzantine(call *Call, resp reflect.Value, keys []reflect.Value) 
 		g := &Gen{c: w.c, Benign: true, uniq: 5000 + call.ID}
 		for try := 0; try < 5; try++ {
 			extra := g.Key(results.Type().Key())
+			if call.collidingStranger != "" && isComplexKeyPtr(results.Type().Key()) && try == 0 {
+				// a key nobody asked for that lands in the hash bucket of one that was asked for
+				extra = reflect.New(results.Type().Key().Elem())
+				extra.Elem().Field(0).FieldByName("A").SetString(call.collidingStranger)
+				w.c.Probe("byzantine-superset-colliding-with-a-requested-key")
+			}
 			dup := false
 			for _, k := range keys {
 				if keyIdentity(k) == keyIdentity(extra) {
